@@ -194,7 +194,8 @@ def rewrite_float(body, rewrites, float_params=()):
         body = re.sub(r'(%s)\s*==\s*0\.0\b' % atom, r'ieee_is_zero(\1)', body)
         body = re.sub(r'(?<=[(,=])\s*-\s*(%s)' % atom, r'ieee_neg(\1)', body)
         for m in re.finditer(r'\blet\s+(?:mut\s+)?(\w+)\s*=\s*(%s)\s*;' % atom, body):
-            floats.add(m.group(1))
+            if not re.match(r'ieee_(to_i64|to_i32|is_\w+)\(', m.group(2)):      # those return integers / booleans
+                floats.add(m.group(1))
         if body == before:
             break
     if body != orig:
